@@ -41,8 +41,9 @@ TRUSTED = [
     "row/column; the const-method table; callbacks (distance/kernel) are reentrant and do not write shared state",
     "the tree model of a loop body is not derived from the C++ text: the theorem covers EVERY body whose shared "
     "accesses stay inside the extracted footprint and which re-initialises its private scratch",
-    "private re-initialisation at descriptor level is the translator's syntactic classification "
-    "(PConst/PInit/PRestored); proved coverage only for the symmetric gram fill and the HLLE columns",
+    "private state at descriptor level is the translator's syntactic classification (PConst/PInit/PRestored); in the "
+    "model PInit = written before read (reinit), PConst/PRestored = canonical between iterations (bernstein_restore); "
+    "coverage proved for the symmetric gram fill, the HLLE columns and the triangulate scratch vector only",
     "fibonacci_heap / reservable_priority_queue after clear() behave as freshly constructed (C16), and Dijkstra's "
     "distances do not depend on tie-breaking in the heap (C04)",
     "OpenMP runtime: a critical section is atomic, the end of the parallel region is a barrier; data-race-free "
